@@ -55,19 +55,27 @@ def reference(n, edges, layer):
     return uf
 
 
-def run_layer(n, edges, layer, dup=None):
+def run_layer(n, edges, layer, dup=None, names="plain"):
     """one call of valve_segments (+ attributes) on the real code; returns (violations, nsegments)."""
     import networkx as nx, pandas as pd, warnings
     import wntr
+    # element names: plain (n0, e0), names that contain the prefixes valve_segments uses internally, and node and link
+    # names drawn from the same strings (as in EPANET's example networks, where node 10 and link 10 coexist)
+    if names == "plain":
+        nname, ename = (lambda i: "n" + str(i)), (lambda j: "e" + str(j))
+    elif names == "prefix":
+        nname, ename = (lambda i: ("N_%d" if i % 2 == 0 else "TOWN_%dL_") % i), (lambda j: ("L_%d" if j % 2 == 0 else "WELL_LINE%dN_") % j)
+    else:
+        nname, ename = (lambda i: "%d" % i), (lambda j: "%d" % j)
     G = nx.MultiDiGraph()
     for i in range(n):
-        G.add_node("n%d" % i)
+        G.add_node(nname(i))
     for j, (a, b) in enumerate(edges):
         if j % 2 == 0:
-            G.add_edge("n%d" % a, "n%d" % b, key="e%d" % j)
+            G.add_edge(nname(a), nname(b), key=ename(j))
         else:
-            G.add_edge("n%d" % b, "n%d" % a, key="e%d" % j)
-    rows = [{"link": "e%d" % j, "node": "n%d" % v} for j, v in layer]
+            G.add_edge(nname(b), nname(a), key=ename(j))
+    rows = [{"link": ename(j), "node": nname(v)} for j, v in layer]
     if dup is not None and rows:
         k, where = dup
         if where == "after":
@@ -76,20 +84,20 @@ def run_layer(n, edges, layer, dup=None):
             rows.append(dict(rows[k]))
     vl = pd.DataFrame(rows, columns=["link", "node"])
     viol = []
-    tag = "dup:" if dup is not None else ""
+    tag = ("dup:" if dup is not None else "") + ("" if names == "plain" else "names-%s:" % names)
     with warnings.catch_warnings():
         warnings.simplefilter("ignore")
         ns, ls, sizes = wntr.metrics.valve_segments(G, vl)
     uf = reference(n, edges, layer)
     got = {}
     for i in range(n):
-        if "n%d" % i not in ns.index:
-            return [{"key": tag + "missing-node", "what": "node n%d has no segment" % i}], 0
-        got[("N", i)] = int(ns["n%d" % i])
+        if nname(i) not in ns.index:
+            return [{"key": tag + "missing-node", "what": "node %s has no segment (index %s)" % (nname(i), list(ns.index)[:6])}], 0
+        got[("N", i)] = int(ns[nname(i)])
     for j in range(len(edges)):
-        if "e%d" % j not in ls.index:
-            return [{"key": tag + "missing-link", "what": "link e%d has no segment" % j}], 0
-        got[("L", j)] = int(ls["e%d" % j])
+        if ename(j) not in ls.index:
+            return [{"key": tag + "missing-link", "what": "link %s has no segment (index %s)" % (ename(j), list(ls.index)[:6])}], 0
+        got[("L", j)] = int(ls[ename(j)])
     if len(ns) != n or len(ls) != len(edges):
         viol.append({"key": tag + "extra-elements", "what": "segment series have %d nodes / %d links for a graph with %d / %d" % (len(ns), len(ls), n, len(edges))})
     if any(v <= 0 for v in got.values()):
@@ -122,8 +130,8 @@ def run_layer(n, edges, layer, dup=None):
     if viol or not layer:
         return viol, nseg
     # ---- attributes, on the frame as valve_segments left it (duplicates dropped in place)
-    dem = pd.Series({"n%d" % i: VALS[i % 3] for i in range(n)})
-    ln = pd.Series({"e%d" % j: VALS[(j + 1) % 3] for j in range(len(edges))})
+    dem = pd.Series({nname(i): VALS[i % 3] for i in range(n)})
+    ln = pd.Series({ename(j): VALS[(j + 1) % 3] for j in range(len(edges))})
     try:
         with warnings.catch_warnings():
             warnings.simplefilter("ignore")
@@ -163,7 +171,7 @@ def run_layer(n, edges, layer, dup=None):
 def run_case(s):
     n, edges = s["n"], [tuple(e) for e in s["edges"]]
     if "layer" in s:      # replay of a single layer
-        v, _ = run_layer(n, edges, [tuple(x) for x in s["layer"]], tuple(s["dup"]) if s.get("dup") else None)
+        v, _ = run_layer(n, edges, [tuple(x) for x in s["layer"]], tuple(s["dup"]) if s.get("dup") else None, s.get("names", "plain"))
         return {"viol": v}
     inc = [(j, v) for j, (a, b) in enumerate(edges) for v in (a, b)]
     viol, seen = [], set()
@@ -174,8 +182,8 @@ def run_case(s):
             variants = [None]
             if 1 <= len(layer) <= 3:
                 variants += [(k, w) for k in range(len(layer)) for w in ("after", "end")]
-            for dup in variants:
-                v, nseg = run_layer(n, edges, layer, dup)
+            for dup, names in [(d, "plain") for d in variants] + [(None, "prefix"), (None, "shared")]:
+                v, nseg = run_layer(n, edges, layer, dup, names)
                 counts["layers"] += 1
                 if dup:
                     counts["layers_with_dup"] += 1
@@ -184,7 +192,7 @@ def run_case(s):
                 for x in v:
                     if x["key"] not in seen:
                         seen.add(x["key"])
-                        x["spec"] = {"n": n, "edges": s["edges"], "layer": [list(q) for q in layer], "dup": list(dup) if dup else None}
+                        x["spec"] = {"n": n, "edges": s["edges"], "layer": [list(q) for q in layer], "dup": list(dup) if dup else None, "names": names}
                         viol.append(x)
     return {"viol": viol, "counts": counts, "nontrivial": counts["multi_segment_layers"] > 0,
             "outcome": "segments>1:%d" % min(counts["multi_segment_layers"], 1), "bulk": counts["layers"], "bulk_nontrivial": counts["multi_segment_layers"]}
